@@ -145,6 +145,9 @@ func runOracle(r *Result, tasks []Task) []taskResult {
 				Detail: "worker process died (fatal error / stack overflow)", Extra: map[string]string{"oracle": t.Oracle, "gen": t.Tag}})
 		}
 	}
+	if len(lastCfgStats) > 0 {
+		mergeCount(r, "g-cfg", lastCfgStats)
+	}
 	mergeCount(r, "generators", gens)
 	mergeCount(r, "sizes", sizes)
 	mergeCount(r, "tags", tags)
